@@ -289,11 +289,11 @@ pub fn midpoint_decimal(a: f64, b: f64) -> String {
     }
 }
 
-fn next_up(x: f64) -> f64 {
+pub fn next_up(x: f64) -> f64 {
     f64::from_bits(x.to_bits() + 1)
 }
 
-fn perturbations(mid: &str, emit: &mut dyn FnMut(&[u8]) -> bool) -> bool {
+pub fn perturbations(mid: &str, emit: &mut dyn FnMut(&[u8]) -> bool) -> bool {
     // exact midpoint
     if !emit(mid.as_bytes()) {
         return false;
